@@ -32,6 +32,8 @@ pub enum IOp {
     Reset,
     Reset2(i32),
     GetHeader,
+    /// inflateGetHeader with capture buffers of this capacity (a later call replaces an earlier one)
+    GetHeaderCap(u32),
     SetDict(bool),
     GetDict,
     Copy,
@@ -161,6 +163,10 @@ fn run_iops<Zx: Z>(wb: i32, data: &[u8], dict: &[u8], ops: &[IOp], env: &IEnv, a
                 }
                 IOp::ResetKeep => {
                     let r = Zx::inflateResetKeep(s.p());
+                    // like after inflateReset the decoder expects the start of a stream: feed the data set again
+                    if r == Z_OK {
+                        pos = 0;
+                    }
                     push(&mut log, 7, r as i64, 0, 0, &[]);
                 }
                 IOp::Reset => {
@@ -185,6 +191,15 @@ fn run_iops<Zx: Z>(wb: i32, data: &[u8], dict: &[u8], ops: &[IOp], env: &IEnv, a
                     head.comment = env.hdr[2].at_end(8);
                     head.comm_max = 8;
                     push(&mut log, 10, Zx::inflateGetHeader(s.p(), &mut *head) as i64, 0, 0, &[]);
+                }
+                IOp::GetHeaderCap(n) => {
+                    head.extra = env.hdr[0].at_end(n as usize);
+                    head.extra_max = n;
+                    head.name = env.hdr[1].at_end(n as usize);
+                    head.name_max = n;
+                    head.comment = env.hdr[2].at_end(n as usize);
+                    head.comm_max = n;
+                    push(&mut log, 19, Zx::inflateGetHeader(s.p(), &mut *head) as i64, 0, 0, &[]);
                 }
                 IOp::SetDict(right) => {
                     let d: Vec<u8> = if right { dict.to_vec() } else { dict.iter().map(|b| b ^ 1).collect() };
@@ -508,9 +523,20 @@ fn deflate_side(ctx: &mut Ctx, env: &OpEnv) {
                                     let wrap = if wb < 0 { Wrap::Raw } else if wb > 15 { Wrap::Gzip } else { Wrap::Zlib };
                                     let seg_a = &ra.total_out[*ra.reset_at.last().unwrap()..];
                                     let seg_b = &rb.total_out[*rb.reset_at.last().unwrap()..];
-                                    let ok_a = matches!(crate::checks::c01::decode_ref(wrap, seg_a), crate::refs::wrap::Wrapped::Ok { .. });
-                                    let ok_b = matches!(crate::checks::c01::decode_ref(wrap, seg_b), crate::refs::wrap::Wrapped::Ok { .. });
-                                    let _ = ok_a;
+                                    // (a stream that has lost its first block header may still happen to decode - to other
+                                    // bytes: the plaintext after the reset is a contiguous piece of the input source, so a
+                                    // decode that is not such a piece is as wrong as one that fails)
+                                    let is_piece = |out: &[u8]| out.is_empty() || {
+                                        let mut hay = env.data.clone();
+                                        hay.extend_from_slice(&env.data[..env.data.len().min(out.len())]);
+                                        hay.windows(out.len()).any(|w| w == out)
+                                    };
+                                    let plain = |seg: &[u8]| match crate::checks::c01::decode_ref(wrap, seg) {
+                                        crate::refs::wrap::Wrapped::Ok { out, .. } => Some(out),
+                                        _ => None,
+                                    };
+                                    let _ = seg_a;
+                                    let ok_b = plain(seg_b).map_or(false, |o| is_piece(&o));
                                     if !ok_b {
                                         c.count("not_compared_reference_emits_invalid_stream_after_reset", 1);
                                         return Ok(());
@@ -602,6 +628,39 @@ fn inflate_alphabet_tiny() -> Vec<IOp> {
 fn inflate_side(ctx: &mut Ctx) {
     let quick = ctx.quick();
     let env = IEnv { ain: Arena::new(1 << 16), aout: Arena::new(1 << 17), aux: Arena::new(1 << 16), hdr: [Arena::new(4096), Arena::new(4096), Arena::new(4096)] };
+    // the capture request replaced while a header field is only partly captured (the mirror of finding D20): every
+    // pair of capacities x every cut of the header; zlib stops copying when the new buffer is already "full"
+    {
+        let gzf = GzFields { text: true, mtime: 9, os: 3, extra: Some((1..=20).collect()), name: Some((0..40).map(|i| b'a' + i % 26).collect()), comment: Some((0..30).map(|i| b'A' + i % 26).collect()), hcrc: true, ..Default::default() };
+        let denv = Env::new();
+        let cfg = DCfg { level: 6, strategy: 0, wbits: 15, mem_level: 8, wrap: Wrap::Gzip };
+        let z = run_deflate::<Ng>(&cfg, &text(4, 200), &DSched::one_shot(), &denv, &DExtra { gz: Some(&gzf), ..Default::default() }, None).expect("reference deflate").out;
+        let hl = gzf.write().len();
+        for a in [64u32, 8, 0] {
+            for b in [64u32, 8, 3, 0] {
+                for cut in 1..=hl + 2 {
+                    let ops = [IOp::GetHeaderCap(a), IOp::Inflate { flush: Z_NO_FLUSH, inn: cut, room: AMPLE }, IOp::GetHeaderCap(b), IOp::Inflate { flush: Z_NO_FLUSH, inn: usize::MAX, room: AMPLE }];
+                    ctx.case(
+                        "inflate-header-capture-replaced",
+                        || format!("data=gzip with 20-byte extra, 40-byte name, 30-byte comment ({} bytes) inflateInit2(31) ; {}", z.len(), iops_desc(&ops)),
+                        |c| {
+                            c.exec();
+                            c.nontrivial();
+                            let ra = run_iops::<Rs>(31, &z, &[], &ops, &env, false, 0xA5)?;
+                            c.exec();
+                            let rb = run_iops::<Ng>(31, &z, &[], &ops, &env, false, 0x00)?;
+                            if ra != rb {
+                                return Err(format!("status codes / data movement differ from zlib-ng: zlib-rs {} ; zlib-ng {}", decode_log(&ra), decode_log(&rb)));
+                            }
+                            c.outcome(hash_bytes(&ra));
+                            c.validated();
+                            Ok(())
+                        },
+                    );
+                }
+            }
+        }
+    }
     let sets = datasets();
     let full = inflate_alphabet(true);
     let small = inflate_alphabet(false);
@@ -839,8 +898,86 @@ fn one_shots(ctx: &mut Ctx) {
     );
 }
 
+/// the *Init_ entry points on the full matrix of (stream NULL / valid) x (version NULL, right, wrong first character,
+/// empty) x (stream_size right, too small, 0, too large) x (other arguments legal / illegal): which error wins
+fn init_matrix(ctx: &mut Ctx) {
+    let versions: [(&str, Option<&[u8]>); 5] = [("own version", None), ("NULL", Some(&[])), ("\"9.9\"", Some(b"9.9\0")), ("\"\"", Some(b"\0")), ("\"1\"", Some(b"1\0"))];
+    let sizes = [STREAM_SIZE, STREAM_SIZE - 1, 0, STREAM_SIZE + 8, -1];
+    for null_strm in [false, true] {
+        for (vname, v) in versions {
+            for size in sizes {
+                for bad_args in [false, true] {
+                    ctx.case(
+                        "init-argument-matrix",
+                        || format!("deflateInit_ / deflateInit2_ / inflateInit_ / inflateInit2_ / inflateBackInit_ with strm {} , version {vname}, stream_size {size}, other arguments {}", if null_strm { "NULL" } else { "valid" }, if bad_args { "illegal" } else { "legal" }),
+                        |c| unsafe {
+                            let ver = |own: *const std::ffi::c_char| -> *const std::ffi::c_char {
+                                match v {
+                                    None => own,
+                                    Some(b) if b.is_empty() => std::ptr::null(),
+                                    Some(b) => b.as_ptr() as *const _,
+                                }
+                            };
+                            let (level, wb, ml) = if bad_args { (77, 99, 0) } else { (6, 15, 8) };
+                            let window = vec![0u8; 1 << 15];
+                            for which in 0..5 {
+                                c.exec();
+                                let mut s1 = Strm::plain();
+                                let mut s2 = Strm::plain();
+                                let p1 = if null_strm { std::ptr::null_mut() } else { s1.p() };
+                                let p2 = if null_strm { std::ptr::null_mut() } else { s2.p() };
+                                let (name, a, b) = match which {
+                                    0 => ("deflateInit_", Rs::deflateInit_(p1, level, ver(Rs::zlibVersion()), size), Ng::deflateInit_(p2, level, ver(Ng::zlibVersion()), size)),
+                                    1 => ("deflateInit2_", Rs::deflateInit2_(p1, level, 8, wb, ml, 0, ver(Rs::zlibVersion()), size), Ng::deflateInit2_(p2, level, 8, wb, ml, 0, ver(Ng::zlibVersion()), size)),
+                                    2 => ("inflateInit_", Rs::inflateInit_(p1, ver(Rs::zlibVersion()), size), Ng::inflateInit_(p2, ver(Ng::zlibVersion()), size)),
+                                    3 => ("inflateInit2_", Rs::inflateInit2_(p1, wb, ver(Rs::zlibVersion()), size), Ng::inflateInit2_(p2, wb, ver(Ng::zlibVersion()), size)),
+                                    _ => ("inflateBackInit_", Rs::inflateBackInit_(p1, wb, window.as_ptr() as *mut u8, ver(Rs::zlibVersion()), size), Ng::inflateBackInit_(p2, wb, window.as_ptr() as *mut u8, ver(Ng::zlibVersion()), size)),
+                                };
+                                if a == Z_OK && !null_strm {
+                                    match which {
+                                        0 | 1 => {
+                                            Rs::deflateEnd(s1.p());
+                                        }
+                                        2 | 3 => {
+                                            Rs::inflateEnd(s1.p());
+                                        }
+                                        _ => {
+                                            Rs::inflateBackEnd(s1.p());
+                                        }
+                                    }
+                                }
+                                if b == Z_OK && !null_strm {
+                                    match which {
+                                        0 | 1 => {
+                                            Ng::deflateEnd(s2.p());
+                                        }
+                                        2 | 3 => {
+                                            Ng::inflateEnd(s2.p());
+                                        }
+                                        _ => {
+                                            Ng::inflateBackEnd(s2.p());
+                                        }
+                                    }
+                                }
+                                if a != b {
+                                    return Err(format!("{name}: zlib-rs returns {}, zlib-ng {}", rc_name(a), rc_name(b)));
+                                }
+                                c.outcome(mix(which as u64, a as u64));
+                            }
+                            c.nontrivial();
+                            c.validated();
+                            Ok(())
+                        },
+                    );
+                }
+            }
+        }
+    }
+}
+
 pub fn run(ctx: &mut Ctx) {
     let env = OpEnv::new();
+    init_matrix(ctx);
     deflate_side(ctx, &env);
     inflate_side(ctx);
     one_shots(ctx);
